@@ -1416,4 +1416,12 @@ def reused_contracts():
     for n in ("active_step_branch_count", "is_branch_active_in_step", "generate_indexed_step_results_name", "extract_results_tuple", "generate_results_transposer"):
         out["JoinOutput::%s" % n] = "gen"
     out["initial_is_replaceable"] = "sep"
+    for n in ("generate_handle", "branch_result_name", "branch_result_pat", "generate_step_branch", "split_branch_steps", "wrap_into_block",
+              "expand_process_expr", "generate_def_and_step_streams", "process_step_action_expr", "wrap_last_step_stream"):
+        out["JoinOutput::%s" % n] = "gen"
+    for n in ("generate_steps", "generate_step_tail", "join_steps", "generate_thread_builders_and_spawn_joiners"):
+        out["JoinOutput::%s" % n] = "steps"
+    out["JoinOutput::generate_step"] = "step"
+    for n in ("new", "set_id", "members", "append_member", "len"):
+        out["<ActionExprChain as Chain>::%s" % n] = "builder"
     return out
